@@ -110,6 +110,9 @@ class TheCheck(Check):
                    "x86-64 gcc: char is signed, 8 bits; size_t is 64 bits",
                    "strstr/strncmp/strcpy/strncpy/memmove are modelled by their C-standard definitions",
                    "malloc does not fail (allocation failure is property C15)",
+                   "the models and oracles have no ambient errno: the harness plants errno (cycling through 0, ENOMEM, "
+                   "ERANGE, EINTR, ENOENT, EINVAL, EAGAIN, ENOBUFS with the operation counter) immediately before every "
+                   "library call and the results must not depend on it",
                    "qstrreplace: search token non-empty; mode r: the caller's block has room for the result "
                    "and its terminator (documented precondition)",
                    "qstrgets, qstrcpy, qstrncpy: size >= 1 is the size of the destination block; "
@@ -368,6 +371,8 @@ class TheCheck(Check):
         return None
 
     def _judge(self, kind, w, f, line):
+        if kind == "errno":
+            return None
         if kind in c19_more.KINDS:
             return c19_more.judge(kind, w, f, line)
         if kind in ("trim", "trimh", "trimt", "rev", "upper", "lower"):
@@ -482,6 +487,14 @@ class TheCheck(Check):
             if f[0] != "ok" or got != want or int(f[1]) != len(want):
                 return "qstrtokenizer(%r, %r) gives %r, documented %r" % (s, d, got, want)
         return None
+
+    def shrink(self, st, idx, pred):
+        """the harness plants errno from the operation counter: a single-operation replay must run
+        under the same value, so it is prefixed with `errno K`"""
+        ops = super().shrink(st, idx, pred)
+        if not st.history and idx < len(st.ops):
+            return ["errno %d" % ((idx + 1) % 8)] + ops
+        return ops
 
     def classify(self, op, detail):
         return "qstring:" + op.split()[0]
